@@ -24,8 +24,8 @@ META = {
     "design_ref": "DESIGN.md §4.2 C14",
     "technique": "TLA+ contract over a Python container algebra (Nested.tla); TLC enumerates nested argument structures x traverse; "
                  "replay into dask.compute/persist/optimize with collections of interleaved kinds + TLC validation of recorded calls",
-    "level_text": "TLC enumerates every argument tuple of depth <= 3 (<= 3 arguments, one nested argument among <= 1-2 leaf siblings, "
-                  "containers of <= 2-3 leaves and containers of one container) over 3 collections and 2 plain leaves for all 8 container "
+    "level_text": "TLC enumerates every argument tuple of depth <= 2 (<= 3 arguments, one nested argument - a container of <= 2-3 leaves - "
+                  "among <= 1 leaf sibling; thorough: <= 2 siblings, and depth 3: a container holding one container and <= 1 leaf) over 3 collections and 2 plain leaves for all 8 container "
                   "kinds, with collections as dict keys / set members, x traverse; design invariants (ShapeKept, AllComputed, TopOnly, "
                   "Idempotent) are checked on every case. Each case is run through dask.compute, dask.persist and dask.optimize with the "
                   "collections' kinds drawn from a menu of all-different and A-B-A assignments (delayed, bag, bag item, array, dataframe "
@@ -163,7 +163,7 @@ def classify(case, kinds, op, clause, obs):
     found = [kinds[c - 1] for c in case["found"]]
     if op == "optimize" and len(found) > 1 and any(GROUP[k] == "F" for k in found):
         return "optimize:frame+other"
-    if len(found) > 1 and interleaved(found):
+    if op in ("compute", "persist") and len(found) > 1 and interleaved(found):      # optimize() does not regroup
         return "interleaved-kinds:" + op
     if "frame_rep" in found and op == "optimize" and obs["raised"] == "NotImplementedError":
         return "optimize:frame-needs-lowering"
@@ -340,9 +340,11 @@ def record_cases(ctx, todo):
 def run(ctx):
     rng = ctx.rng
     thorough = not ctx.quick
-    consts = ctx.pick({"RootW": 3, "SibW": 1, "Deep": False}, {"RootW": 3, "SibW": 2, "Deep": True})
-    cases = enumerate_cases(ctx, consts)
-    cap = ctx.pick(1800, 40000)
+    cases = []
+    for consts in ctx.pick([{"RootW": 3, "SibW": 1, "Deep": False}],
+                           [{"RootW": 3, "SibW": 2, "Deep": False}, {"RootW": 3, "SibW": 0, "Deep": True}]):
+        cases += enumerate_cases(ctx, consts)
+    cap = ctx.pick(3500, 30000)
     sampled = len(cases) > cap
     if sampled:
         # keep every flat argument tuple (the orderings of the collections), sample the nested ones
@@ -351,7 +353,7 @@ def run(ctx):
         cases = flat + rng.sample(rest, max(0, cap - len(flat)))
     replay_cases(ctx, cases, rng, frame_share=ctx.pick(0.15, 0.3), thorough=thorough)
     todo = []
-    for _ in range(ctx.pick(250, 4000)):
+    for _ in range(ctx.pick(500, 3000)):
         case, kinds = random_case(rng, frames=rng.random() < ctx.pick(0.2, 0.35))
         todo.append((case, kinds, "threads" if rng.random() < 0.2 else "sync", rng.random() < 0.8))
     record_cases(ctx, todo)
@@ -383,4 +385,84 @@ def replay(ctx, obj):
 
 
 def selftest(ctx):
-    return 1
+    import copy
+    import glob
+    import os
+    import sys
+
+    import dask.base  # noqa: F401
+    from ..mutate import source_mutant
+    B = sys.modules["dask.base"]
+    ok = True
+    rdir = os.path.join(os.path.dirname(os.path.dirname(os.path.dirname(os.path.abspath(__file__)))), "replays")
+    before = set(glob.glob(os.path.join(rdir, "C14-*.json")))
+    cases = enumerate_cases(ctx, {"RootW": 2, "SibW": 1, "Deep": False})
+    cases = random.Random(3).sample(cases, min(len(cases), 320))
+    rnd = random.Random(4)
+    todo = []
+    for _ in range(40):
+        case, kinds = random_case(rnd, frames=False)
+        todo.append((case, kinds, "sync", True))
+
+    def attempt(name, with_records=False):
+        n = replay_cases(ctx, cases, random.Random(5), frame_share=0.0)
+        if with_records:
+            n += record_cases(ctx, todo)
+        sigs = sorted({s for s, _, _ in ctx.violations})
+        del ctx.violations[:]
+        ctx.viol_count.clear()
+        print("mutant %s: %s (%d violations; e.g. %s)" % (name, "DETECTED" if n else "MISSED", n, sigs[:2]))
+        return n > 0
+
+    n = replay_cases(ctx, cases, random.Random(5), frame_share=0.0) + record_cases(ctx, todo)
+    print("unchanged dask on the self-test case set (%d cases x 3 calls + %d recorded): %d violations outside the known findings %s"
+          % (len(cases), len(todo) * 3, n, sorted(ctx.known_hit)))
+    ok &= n == 0
+    # mutant 1: collections used as dict keys are not replaced
+    with source_mutant(B, "unpack_collections", "Dict({_unpack(k): _unpack(v) for k, v in expr.items()})",
+                       "Dict({k: _unpack(v) for k, v in expr.items()})"):
+        ok &= attempt("dict-keys-not-unpacked")
+    # mutant 2: traverse=False is ignored (nested collections are computed although the caller said not to look)
+    with source_mutant(B, "unpack_collections", "        if not traverse:\n            tsk = DataNode(None, expr)\n        else:",
+                       "        if False:\n            tsk = DataNode(None, expr)\n        else:"):
+        ok &= attempt("traverse-flag-ignored")
+    # mutant 3: namedtuples are rebuilt with their fields reversed
+    with source_mutant(B, "unpack_collections", "tsk = Task(tok, typ, *[_unpack(i) for i in expr])",
+                       "tsk = Task(tok, typ, *[_unpack(i) for i in reversed(expr)])"):
+        ok &= attempt("namedtuple-fields-reversed", with_records=True)
+    # mutant 4: persist pairs keys and results the wrong way round
+    import dask
+    orig_persist = dask.persist
+    with source_mutant(B, "persist", "d = dict(zip(keys, results))", "d = dict(zip(keys, reversed(list(results))))") as mutated:
+        dask.persist = mutated                     # dask.persist is bound at import time
+        try:
+            ok &= attempt("persist-results-reversed")
+        finally:
+            dask.persist = orig_persist
+    # mutant 5: equal-token collections are not de-duplicated consistently (second occurrence points one slot too far)
+    with source_mutant(B, "unpack_collections", "tok, getitem, TaskRef(collections_token), len(collections)\n",
+                       "tok, getitem, TaskRef(collections_token), max(len(collections) - 1, 0)\n"):
+        ok &= attempt("repack-index-off-by-one")
+    # binding of the trace spec
+    case, kinds = None, None
+    while case is None or len(case["found"]) < 2 or not case["traverse"] or interleaved([kinds[c - 1] for c in case["found"]]):
+        case, kinds = random_case(rnd, frames=False)
+    recs = _record((0, case, kinds, "sync", True))
+    base = {k: recs[0][k] for k in ("id", "op", "args", "traverse", "obs")}
+    bad1 = copy.deepcopy(base)
+    bad1["id"] = "swapped"
+    vals = [lf for t in bad1["obs"]["res"] for lf in leaves(t) if lf["k"] == "val"]
+    first = vals[0]["c"]
+    other = [lf for lf in vals if lf["c"] != first][0]
+    vals[0]["c"], other["c"] = other["c"], first
+    bad2 = copy.deepcopy(base)
+    bad2["id"] = "dropped"
+    bad2["obs"]["res"] = bad2["obs"]["res"][:-1]
+    spec, cfg = ctx.model(ctx.spec("graph", "CollectionsTrace.tla"), {})
+    rej = ctx.tlc_validate(spec, [base, bad1, bad2], cfg)
+    print("untouched record: %s; two values swapped: %s; one result dropped: %s"
+          % (rej.get(base["id"], "accepted"), rej.get("swapped", "accepted"), rej.get("dropped", "accepted")))
+    ok &= base["id"] not in rej and "swapped" in rej and "dropped" in rej
+    for f in set(glob.glob(os.path.join(rdir, "C14-*.json"))) - before:
+        os.remove(f)
+    return 0 if ok else 1
